@@ -97,6 +97,8 @@ Shapes(f) ==
       [] f = "lcc" -> {Sh(t, 10, 0) : t \in {"lcc lat_1=57 lon_0=10", "lcc lat_1=-33 lon_0=10", "lcc lat_1=33 lat_2=45 lon_0=10", "lcc lat_1=-33 lat_2=-45 lon_0=10",
                                              "lcc lat_1=40 lat_2=60 lat_0=50 lon_0=10 k_0=0.9996 x_0=500000 y_0=-100000", "lcc lat_1=45 lat_2=45 lon_0=10"}}
                       \cup {Sh("lcc lat_1=33 lat_2=45", 0, 0)}
+                      \* latitude of origin at a pole (polar aspect of the cone's apex: rho0 = 0)
+                      \cup {Sh("lcc lat_1=75 lat_2=85 lat_0=90 lon_0=10", 10, 0), Sh("lcc lat_1=-70 lat_2=-80 lat_0=-90 lon_0=10", 10, 0)}
       [] f = "laea" -> LaeaShapes
       [] f = "somerc" -> {Sh("somerc lat_0=46.9524055555556 lon_0=7.43958333333333 k_0=1 x_0=2600000 y_0=1200000", 7, 47), Sh("somerc lat_0=47 lon_0=8", 8, 47)}
       [] f = "omerc" -> {Sh("omerc lonc=115 latc=4 alpha=53:18:56.9537 gamma_c=53:07:48.3685 k_0=0.99984", 115, 4),
